@@ -324,6 +324,11 @@ class Gen:
                 self.live[st] = set()
                 self.put(st, b"after_destroy", unique=True, info="new")
                 self.get(st, b"after_destroy")
+            if r.random() < 0.4:
+                # every storage is deleted again before fin(): only the directory's own (emptied) tree is left
+                self.emit("delete %s" % hx(st))
+                self.live.pop(st, None)
+                self.emit("list")
             leave_all = r.random() < 0.6
             if leave_all:
                 for i in range(nsess if nsess < 8 else 6):
